@@ -376,6 +376,20 @@ class World:
                 p = 2 * min(stats.chi2.cdf(chi, n - 1), stats.chi2.sf(chi, n - 1))
                 ctx.check(p >= alpha or self.reg[1] == "32b" and abs(chi / (n - 1) - 1) < 0.2, "sample", dict(sig, what="variance"),
                           lambda: f"aux column {j}: sum of squares / sigma^2 = {chi:.1f} on {n - 1} dof (exact chi2 tail {p:.3g}); backend={self.reg}")
+        # independence: the joint pdf is a product, so no two columns may be correlated
+        live = [j for j in range(x.shape[1]) if x[:, j].std() > 0]
+        if len(live) >= 2:
+            cc = np.corrcoef(x[:, live], rowvar=False)
+            lim = 7.0 / math.sqrt(n)
+            for a in range(len(live)):
+                for b_ in range(a + 1, len(live)):
+                    ctx.c.oracle_evals["sample_stat_tests"] += 1
+                    if abs(cc[a, b_]) > lim:
+                        ctx.fail("sample", dict(sig, what="independence"),
+                                 f"columns {live[a]} and {live[b_]} of {n} sampled rows have correlation {cc[a, b_]:.4f} (7 sigma = {lim:.4f}); "
+                                 f"main columns 0..{nmain - 1}, aux {nmain}..{nmain + naux - 1}; backend={self.reg}")
+                        return "correlated"
+            ctx.probe("sample_independence_checked")
         return core.fhex(x[:3])
 
     # -- (c) toy p-values against exact tails --------------------------------------------
